@@ -1056,6 +1056,29 @@ def run(chk):
         got = [inl_u.render(x, roles={up: "S"}) for x in stmt_list(br) if x["k"] != "Decl"]
     tr_clause("update_udq:scalar", uu, got == ["this.update($S.name(), $S[0].value().value_or(this.udq_undefined))"], got, "update(name, first element's value or the undefined value)")
 
+    # ---- C09.tstep: the time axis advances by the TSTEP entries in the deck's own time unit
+    r_tp = chk.rule("C09.tstep", "ScheduleDeck::add_TSTEP advances the running time by getSIDouble of each TSTEP entry (TSTEP has the Time dimension: days, but hours in LAB units); the raw number (get<double>) is used for the negative-value test and the message only - a step length computed from it makes TIME, the calendar vectors and every cumulative total of a LAB deck 24 times too large", floor=2)
+    tdx = chk.facts(["opm/input/eclipse/Schedule/ScheduleDeck.cpp"])
+    atf = [f for f in tdx.fns if f["q"] == "Opm::ScheduleDeck::add_TSTEP" and f.get("body")]
+    if len(atf) != 1:
+        raise core.AnalysisBroken("ScheduleDeck::add_TSTEP: %d definitions" % len(atf))
+    atf = atf[0]
+    adv = [n for n in walk(atf["body"]) if n.get("k") in ("Decl",) and any("last_time" in show(v.get("init") or {}) for v in n["vars"])]
+    raw_locals = {v["n"] for n in walk(atf["body"]) if n.get("k") == "Decl" for v in n["vars"] if isinstance(v.get("init"), dict) and any(x.get("k") == "MCall" and x.get("m") == "get" and (x.get("targs") or [""])[0] == "double" for x in walk(v["init"]))}
+    okt = False
+    det9 = [show(n)[:260] for n in adv]
+    if len(adv) == 1:
+        t_ = show(adv[0])
+        uses_raw = any(re.search(r"(?<![\w.])%s\b" % re.escape(r_), t_) for r_ in raw_locals) or ".get(" in t_
+        okt = "getSIDouble(" in t_ and not uses_raw
+    chk.instance(r_tp, "advance", sample=dict(statement=det9, raw_locals=sorted(raw_locals)))
+    if not okt:
+        chk.violation(r_tp, "advance", "ScheduleDeck::add_TSTEP computes the next report time as %s; the step length must be the SI value of the entry (getSIDouble), not the deck number" % det9, atf["file"], adv[0]["l"] if adv else atf["l"])
+    blk = [n for n in walk(atf["body"]) if n.get("k") == "MCall" and n.get("m") == "add_block"]
+    chk.instance(r_tp, "block", sample=dict(calls=[show(n)[:120] for n in blk]))
+    if len(blk) != 1:
+        chk.violation(r_tp, "block", "ScheduleDeck::add_TSTEP must open exactly one block per TSTEP entry (found %d add_block calls)" % len(blk), atf["file"], atf["l"])
+
     from verif import fallthrough
     fallthrough.run(chk, "C09", floor=40)
     from verif import argorder
